@@ -5,6 +5,7 @@ import (
 	"go/ast"
 	"go/token"
 	"go/types"
+	"sort"
 	"strings"
 )
 
@@ -108,6 +109,9 @@ func (c *fctx) callTerm(call *ast.CallExpr) callOut {
 		off := 0
 		if ci.recv != nil {
 			v, lv := c.argValue(recvExpr, nil)
+			if ci.nilable[ci.recv] {
+				v = c.nilableArg(recvExpr, v)
+			}
 			args = append(args, v)
 			if ci.mutated[ci.recv] {
 				co.writeback = append(co.writeback, lv)
@@ -115,7 +119,16 @@ func (c *fctx) callTerm(call *ast.CallExpr) callOut {
 			off = 1
 		}
 		for i, a := range call.Args {
-			v, lv := c.argValue(a, sig.Params().At(i).Type())
+			var v string
+			var lv ast.Expr
+			if ci.nilable[ci.params[i+off]] && isNilIdent(c.info, a) {
+				v, lv = "none", a
+			} else {
+				v, lv = c.argValue(a, sig.Params().At(i).Type())
+				if ci.nilable[ci.params[i+off]] {
+					v = c.nilableArg(a, v)
+				}
+			}
 			args = append(args, v)
 			if ci.mutated[ci.params[i+off]] {
 				co.writeback = append(co.writeback, lv)
@@ -128,12 +141,25 @@ func (c *fctx) callTerm(call *ast.CallExpr) callOut {
 			co.randFirst = true
 			args = append([]string{"rnd_"}, args...)
 		}
+		for i := len(extGlobalNames(ci)) - 1; i >= 0; i-- {
+			g := extGlobalNames(ci)[i]
+			if g == leanPkgName(c.fi.pkg) {
+				c.fi.usesGlobals = true
+				args = append([]string{"G_"}, args...)
+			} else {
+				c.needExtGlobals(g)
+				args = append([]string{"G_" + g}, args...)
+			}
+		}
 		if ci.usesGlobals {
 			if ci.pkg != c.fi.pkg {
-				c.fail(call, "call of %s, which reads the package-level variables of another package", callee.Name())
+				c.needExtGlobals(leanPkgName(ci.pkg))
+				c.t.usedGen[c.fi.pkg.PkgPath][ci.pkg.PkgPath] = true
+				args = append([]string{"G_" + leanPkgName(ci.pkg)}, args...)
+			} else {
+				c.fi.usesGlobals = true
+				args = append([]string{"G_"}, args...)
 			}
-			c.fi.usesGlobals = true
-			args = append([]string{"G_"}, args...)
 		}
 		if ci.usesPrims {
 			c.fi.usesPrims = true
@@ -172,7 +198,7 @@ func (c *fctx) callTerm(call *ast.CallExpr) callOut {
 			}
 		}
 	}
-	if ex, ok := c.t.extern.Funcs[funcKey(callee)]; ok && (callee.Pkg() == nil || callee.Pkg().Path() != c.t.curPkg) {
+	if ex, ok := c.t.extern.Funcs[funcKey(callee)]; ok && (callee.Pkg() == nil || !c.t.genPkgs[callee.Pkg().Path()]) {
 		var args []string
 		if recvExpr != nil {
 			v, lv := c.argValue(recvExpr, nil)
@@ -192,6 +218,10 @@ func (c *fctx) callTerm(call *ast.CallExpr) callOut {
 			co.randFirst = true
 			args = append([]string{"rnd_"}, args...)
 		}
+		if ex.UsesPrims {
+			c.fi.usesPrims = true
+			args = append([]string{"P"}, args...)
+		}
 		co.term = ex.Lean + " " + strings.Join(args, " ")
 		if ex.Pure {
 			co.term = "Res.ok (" + co.term + ")"
@@ -200,6 +230,22 @@ func (c *fctx) callTerm(call *ast.CallExpr) callOut {
 	}
 	c.fail(call, "call of %s, which is outside the translated packages", funcKey(callee))
 	return co
+}
+
+func extGlobalNames(fi *fnInfo) []string {
+	var out []string
+	for g := range fi.extGlobals {
+		out = append(out, g)
+	}
+	sort.Strings(out)
+	return out
+}
+
+func (c *fctx) needExtGlobals(g string) {
+	if c.fi.extGlobals == nil {
+		c.fi.extGlobals = map[string]bool{}
+	}
+	c.fi.extGlobals[g] = true
 }
 
 // bind the call; write mutated arguments back; return result terms (and the error flag, if catchErr)
@@ -226,6 +272,9 @@ func (c *fctx) useCall(call *ast.CallExpr, co callOut, catchErr bool) []string {
 		c.letPure("rnd_", "Rand", proj(r, 0, n))
 	}
 	for i, wb := range co.writeback {
+		if _, isCall := ast.Unparen(wb).(*ast.CallExpr); isCall {
+			continue // the mutated object is a temporary (the result of another call): nothing can see it afterwards
+		}
 		c.lvalSet(wb, proj(r, off+i, n))
 	}
 	var out []string
